@@ -108,6 +108,10 @@ func (op *FsTxn) GetInodeInumFree(inum common.Inum) *inode.Inode {
 }
 
 func (op *FsTxn) GetInodeInum(inum common.Inum) *inode.Inode {
+	if inum == common.NULLINUM || inum >= op.Fs.Super.NInode() {
+		// not an inode number of this file system (e.g., from a forged handle)
+		return nil
+	}
 	ip := op.GetInodeInumFree(inum)
 	if ip == nil {
 		return nil
